@@ -1,6 +1,7 @@
 package gosym
 
 import (
+	"os"
 	"bufio"
 	"fmt"
 	"io"
@@ -16,6 +17,9 @@ import (
 type Solver struct {
 	Kind      string // "cvc5", "z3-new", "z3"
 	TimeoutMs int
+	ExtraArgs []string
+	OneShot   bool // run a fresh solver process per query (no incremental state)
+	AbsDiv    bool // render symbolic/symbolic division as uninterpreted functions (sound for unsat)
 
 	cmd   *exec.Cmd
 	in    io.WriteCloser
@@ -41,8 +45,17 @@ type SolverStats struct {
 	Wall     time.Duration
 }
 
-func NewSolver(kind string, timeoutMs int) (*Solver, error) {
+func NewSolver(kind string, timeoutMs int, extra ...string) (*Solver, error) {
 	s := &Solver{Kind: kind, TimeoutMs: timeoutMs}
+	for _, e := range extra {
+		if e == "oneshot" {
+			s.OneShot = true
+		} else if e == "absdiv" {
+			s.AbsDiv = true
+		} else {
+			s.ExtraArgs = append(s.ExtraArgs, e)
+		}
+	}
 	s.levels = [][]string{nil}
 	s.defs = []map[*Term]string{{}}
 	s.decl = []map[string]bool{{}}
@@ -53,11 +66,15 @@ func NewSolver(kind string, timeoutMs int) (*Solver, error) {
 }
 
 func (s *Solver) start() error {
+	if s.OneShot {
+		return nil
+	}
 	var cmd *exec.Cmd
 	switch s.Kind {
 	case "cvc5":
-		cmd = exec.Command("cvc5", "--incremental", "--lang", "smt2", "--produce-models",
-			fmt.Sprintf("--tlimit-per=%d", s.TimeoutMs))
+		args := append([]string{"--incremental", "--lang", "smt2", "--produce-models",
+			fmt.Sprintf("--tlimit-per=%d", s.TimeoutMs)}, s.ExtraArgs...)
+		cmd = exec.Command("cvc5", args...)
 	case "z3-new":
 		cmd = exec.Command("z3-new", "-in")
 	case "z3":
@@ -101,6 +118,9 @@ func (s *Solver) start() error {
 }
 
 func (s *Solver) Close() {
+	if s.OneShot {
+		return
+	}
 	if s.cmd != nil {
 		s.in.Close()
 		s.cmd.Process.Kill()
@@ -112,6 +132,9 @@ func (s *Solver) Close() {
 func (s *Solver) raw(c string) {
 	if s.Log != nil {
 		fmt.Fprintln(s.Log, c)
+	}
+	if s.OneShot {
+		return
 	}
 	io.WriteString(s.in, c)
 	io.WriteString(s.in, "\n")
@@ -211,6 +234,14 @@ func (s *Solver) name(t *Term) string {
 		s.send(fmt.Sprintf("(declare-fun %s (%s) %s)", t.Name, strings.Join(as, " "), t.S))
 	}
 	body := t.render(args)
+	if s.AbsDiv && (t.Op == OpBVSDiv || t.Op == OpBVSRem || t.Op == OpBVUDiv || t.Op == OpBVURem) && !t.Args[0].IsConst() && !t.Args[1].IsConst() {
+		fn := fmt.Sprintf("absdiv_%d_%d", t.Op, t.S.W)
+		if !s.isDeclared(fn) {
+			s.decl[len(s.decl)-1][fn] = true
+			s.send(fmt.Sprintf("(declare-fun %s (%s %s) %s)", fn, t.S, t.S, t.S))
+		}
+		body = "(" + fn + " " + args[0] + " " + args[1] + ")"
+	}
 	s.nextID++
 	n := "t!" + strconv.Itoa(s.nextID)
 	s.send(fmt.Sprintf("(define-fun %s () %s %s)", n, t.S, body))
@@ -257,14 +288,85 @@ func (s *Solver) readUntilMark(deadline time.Duration) ([]string, bool) {
 	}
 }
 
+// oneShot runs the whole assertion stack plus tail commands in a fresh process.
+func (s *Solver) oneShot(tail string) ([]string, bool) {
+	var sb strings.Builder
+	sb.WriteString("(set-logic ALL)\n")
+	for _, lv := range s.levels {
+		for _, c := range lv {
+			sb.WriteString(c)
+			sb.WriteString("\n")
+		}
+	}
+	sb.WriteString(tail)
+	var cmd *exec.Cmd
+	switch s.Kind {
+	case "cvc5":
+		args := append([]string{"--lang", "smt2", "--produce-models", fmt.Sprintf("--tlimit=%d", s.TimeoutMs)}, s.ExtraArgs...)
+		cmd = exec.Command("cvc5", args...)
+	default:
+		cmd = exec.Command(s.Kind, "-in", fmt.Sprintf("-t:%d", s.TimeoutMs))
+	}
+	cmd.Stdin = strings.NewReader(sb.String())
+	done := make(chan []byte, 1)
+	go func() {
+		out, _ := cmd.CombinedOutput()
+		done <- out
+	}()
+	select {
+	case out := <-done:
+		var ls []string
+		for _, l := range strings.Split(string(out), "\n") {
+			l = strings.TrimSpace(l)
+			if l != "" {
+				ls = append(ls, l)
+			}
+		}
+		if len(ls) == 0 {
+			ls = []string{"unknown"}
+		}
+		return ls, true
+	case <-time.After(time.Duration(s.TimeoutMs)*time.Millisecond*2 + 5*time.Second):
+		if cmd.Process != nil {
+			cmd.Process.Kill()
+		}
+		return []string{"timeout"}, true
+	}
+}
+
 // Check runs (check-sat) in the current context.
 func (s *Solver) Check() Result {
 	t0 := time.Now()
 	s.Stats.Queries++
-	s.raw("(check-sat)")
-	s.raw(`(echo "@@MARK@@")`)
-	lines, ok := s.readUntilMark(time.Duration(s.TimeoutMs)*time.Millisecond*2 + 5*time.Second)
+	var lines []string
+	var ok bool
+	if s.OneShot {
+		lines, ok = s.oneShot("(check-sat)\n")
+		for i, l := range lines {
+			if strings.Contains(l, "interrupted by timeout") || strings.Contains(l, "timeout") {
+				lines[i] = "unknown"
+			}
+		}
+	} else {
+		s.raw("(check-sat)")
+		s.raw(`(echo "@@MARK@@")`)
+		lines, ok = s.readUntilMark(time.Duration(s.TimeoutMs)*time.Millisecond*2 + 5*time.Second)
+	}
 	s.Stats.Wall += time.Since(t0)
+	if d := os.Getenv("GOSYM_DUMPSLOW"); d != "" && time.Since(t0) > 3*time.Second {
+		var sb strings.Builder
+		sb.WriteString("; " + s.Kind + " " + strings.Join(s.ExtraArgs, " ") + " " + strings.Join(lines, ",") + "\n(set-logic ALL)\n")
+		for _, lv := range s.levels {
+			for _, c := range lv {
+				sb.WriteString(c + "\n")
+			}
+		}
+		sb.WriteString("(check-sat)\n")
+		os.WriteFile(fmt.Sprintf("%s/slow-%d-%d.smt2", d, os.Getpid(), time.Now().UnixNano()), []byte(sb.String()), 0o644)
+	}
+	if os.Getenv("GOSYM_QLOG") != "" {
+		fmt.Fprintf(os.Stderr, "query %d: %v %v\n", s.Stats.Queries, time.Since(t0), lines)
+	}
 	if !ok {
 		s.LastErr = "solver hang/died: " + strings.Join(lines, " | ")
 		s.Stats.Unknown++
@@ -331,9 +433,18 @@ func (s *Solver) GetValues(vars []*Term) (map[string]ModelValue, error) {
 	for _, v := range vars {
 		names = append(names, s.name(v))
 	}
-	s.raw("(get-value (" + strings.Join(names, " ") + "))")
-	s.raw(`(echo "@@MARK@@")`)
-	lines, ok := s.readUntilMark(30 * time.Second)
+	var lines []string
+	var ok bool
+	if s.OneShot {
+		lines, ok = s.oneShot("(check-sat)\n(get-value (" + strings.Join(names, " ") + "))\n")
+		if len(lines) > 0 && (lines[0] == "sat" || lines[0] == "unsat" || lines[0] == "unknown") {
+			lines = lines[1:]
+		}
+	} else {
+		s.raw("(get-value (" + strings.Join(names, " ") + "))")
+		s.raw(`(echo "@@MARK@@")`)
+		lines, ok = s.readUntilMark(30 * time.Second)
+	}
 	if !ok {
 		s.restart()
 		return nil, fmt.Errorf("get-value: solver hang")
